@@ -487,20 +487,20 @@ func (f Index) Last(prefix []byte) (i Item, err error) {
 	// next key if the key that it seeks to is not found
 	// and by getting the previous key, the last one for the
 	// actual prefix is found
-	nextPrefix := incByteSlice(prefix)
-	l := len(prefix)
-
-	if l > 0 && nextPrefix != nil {
+	// the increment covers the index's own key prefix and truncates, so an
+	// empty or all-0xff prefix still stays inside this index and shorter
+	// keys that sort after the prefix range are not mistaken for the last one
+	totalPrefix := append(append(make([]byte, 0, len(f.prefix)+len(prefix)), f.prefix...), prefix...)
+	if next := bytesIncrement(totalPrefix); next != nil {
 		it.Seek(driver.Key{
 			Prefix: indexKeyPrefixLength,
-			Data:   append(f.prefix, nextPrefix...),
+			Data:   next,
 		})
 		it.Prev()
 	} else {
 		it.Last()
 	}
 
-	totalPrefix := append(f.prefix, prefix...)
 	return f.itemFromIterator(it, totalPrefix)
 }
 
